@@ -74,8 +74,8 @@ func main() {
 			case 1:
 				return cyc.Run2(sel, in)
 			case 4:
-				if len(in) != 8 {
-					panic("reclaim case: 8 tokens expected")
+				if len(in) != 8 && len(in) != 11 {
+					panic("reclaim case: 8 or 11 tokens expected")
 				}
 				lastObs = runReclaimCase(in)
 				// correspondence part: the model only validates the shape of the input
@@ -139,14 +139,22 @@ func main() {
 func genRegressionStreams(rng *vh.Rng, n int, emit func(id string, sel int, in []int64, kind string, nontrivial bool, desc any)) {
 	emitReclaim := func(id string, in []int64) {
 		obs := runReclaimCase(in)
-		emit(id, 4, in, "reclaim-hierarchical/capacity+gang/gates=default", obs[0] == 1 && obs[1] == 0,
-			map[string]any{"capParent": in[0], "a": in[1], "b": in[2], "req": in[3], "c": in[4], "deservedB": in[5], "deservedC": in[6], "siblingVictims": in[7]})
+		kind, desc := "reclaim-hierarchical/capacity+gang/gates=default",
+			map[string]any{"capParent": in[0], "a": in[1], "b": in[2], "req": in[3], "c": in[4], "deservedB": in[5], "deservedC": in[6], "siblingVictims": in[7]}
+		if len(in) == 11 {
+			kind = "reclaim-room-without-eviction/" + kindName(in[9]) + "+gang/gates=default"
+			desc["idle"], desc["capLeaf"] = in[8], in[10]
+		}
+		// non-trivial: the Preemptive vote admits the task while Allocatable refuses it (an ancestor,
+		// or for the room family any limit, is binding)
+		emit(id, 4, in, kind, obs[0] == 1 && obs[1] == 0, desc)
 	}
 	emitAlias := func(id string, in []int64) {
 		emit(id, 5, in, "vote-isolation/capacity-hierarchical/gates=default", in[0] >= 5,
 			map[string]any{"depth": in[0], "capC2": in[1], "held": in[2], "req": in[3], "viaEnqueue": in[4]})
 	}
 	emitReclaim("reclaim-witness", []int64{10, 6, 4, 2, 10, 8, 5, 0})
+	emitReclaim("reclaim-room-witness", []int64{2, 2, 0, 1, 2, 2, 1, 0, 1, kHier, 0})
 	emitAlias("alias-witness", []int64{5, 2, 2, 1, 0})
 	emitAlias("alias-witness-enqueue", []int64{5, 2, 2, 1, 1})
 	// the real preempt action (topology-aware dry run) and the real enqueue action.  A preempt case
@@ -178,6 +186,7 @@ func genRegressionStreams(rng *vh.Rng, n int, emit func(id string, sel int, in [
 	}
 	for i := 0; i < n; i++ {
 		emitReclaim(fmt.Sprintf("reclaim-%d", i), genReclaimCase(rng.Fork()))
+		emitReclaim(fmt.Sprintf("reclaim-room-%d", i), genReclaimRoomCase(rng.Fork()))
 		emitAlias(fmt.Sprintf("alias-%d", i), genAliasCase(rng.Fork()))
 		emitPreempt(fmt.Sprintf("preempt-%d", i), genPreemptCase(rng.Fork()))
 		emitEnqueue(fmt.Sprintf("enqueue-%d", i), genEnqueueCase(rng.Fork()))
